@@ -37,6 +37,7 @@ def run(prog, tier):
     fam.cli_roles(R, prog, P, MEMBERS, 8)
     table = builder_table(prog)
     fam.borrow(R, P, "MECHANISM", prog, c04.check_thresholds, table, floor=8)
+    fam.borrow(R, P, "MECHANISM", prog, c04.check_builder_paths, table, floor=14)
     fam.borrow(R, P, "MECHANISM", prog, c04.check_add_linear, floor=4)
     fam.borrow(R, P, "MECHANISM", prog, c04.check_mapping_dispatch, floor=4)
     fam.borrow(R, P, "MECHANISM", prog, c04.check_mapping_schema, floor=4)
